@@ -159,9 +159,17 @@ def execute(case):
     spec = [("g", "int", [g for g, _ in rows]), ("x", kind, [v for _, v in rows])]
     df = gen.build_frame(spec)
     pre = canon.frame_cells(df)
+    trailers = {}
+    if case.get("trailers", True) and kind in ("bool", "int", "float", "date", "datetime", "str"):
+        # the same aggregate() call goes on with order-sensitive helpers on the same column: one helper must not disturb the next
+        trailers = {"z_first": ("first", {}), "z_last": ("last", {}), "z_nth": ("nth", {"index": 1}), "z_mode": ("mode", {}), "z_count": ("count", {})}
     try:
         short = f("x", *args, **kws)
-        out = df.group_by("g").aggregate(y=short)
+        extra = {}
+        for name, (h, hkw) in trailers.items():
+            a2, k2 = _call_args(h, hkw)
+            extra[name] = getattr(di, h)("x", *a2, **k2)
+        out = df.group_by("g").aggregate(y=short, **extra)
     except Exception as e:
         res.violate(f"{helper}:groupwise:raised:{exc_name(e)}:{kind}", f"aggregate(y=di.{helper}('x')) raised {e!r}; {ctx}")
         return res.dict()
@@ -173,5 +181,15 @@ def execute(case):
         res.violate(f"{helper}:groupwise:mutated-input", ctx)
     for g, got in zip(gorder, oc["y"]):
         judge("groupwise", g, got, expected[g])
+    for name, (h, hkw) in trailers.items():
+        if name not in oc:
+            res.violate(f"{helper}:groupwise:trailing-helper-missing", f"column {name} absent; {ctx}")
+            break
+        for g, got in zip(gorder, oc[name]):
+            exp = models.stat(h, cells_of[g], drop_na=hkw.get("drop_na"), index=hkw.get("index"))
+            if exp != "UNSPECIFIED" and not canon.cell_eq(got, exp, widen=True, tol=tol):
+                res.violate(f"{h}:groupwise:wrong-value-after-{helper}-in-same-call", f"aggregate(y={helper}{kw}, ..., {name}={h}{hkw}): group {g} elements {canon.short(byg[g], 300)}: {name} = {got} expected {exp}; {ctx}")
+                break
+        res.count("trailing-helpers-compared")
     res.observed = {"groups": len(gorder), "expected": canon.short([expected[g] for g in gorder], 200)}
     return res.dict()
